@@ -619,6 +619,10 @@ PS_CFGS += [dict(layout="u1", part=0, ext0="given", r="none", entry="solve"), di
 PS_CFGS += [dict(layout=l, part=0, ext0="given", r="given", entry="tools.solve") for l in ("u1", "u1p")]
 PS_CFGS = [c for c in PS_CFGS if not (c["layout"] == "u1" and c["part"] == 2 and c["ext0"] == "given" and c["entry"] == "newton.solve")]
 PS_CFGS += [dict(layout="u2", part=0, ext0=e, r="given", entry=en, tier="thorough") for e in ("given", "none") for en in ("solve", "newton.solve", "tools.solve")]
+# tools._newton.solve(..., offsets=): the positions at which the container's unknowns split into fields, handed over by hand-written
+# Newton loops (felupe.tools.solve takes them as well) -- the clauses of the partitioned solve hold with them given (also as an empty
+# list for a one-field container: a value like any other)
+PS_CFGS += [dict(layout=l, part=0, ext0=e, r="given", entry="newton.solve", offsets="given") for l in ("u1", "u1p") for e in ("given", "none")]
 
 
 @contract("C07", "partition_solve", configs=PS_CFGS, engine="E1")
@@ -662,7 +666,10 @@ def partition_solve(vk, cfg):
         du = FS.solve(*system, ext0, solver=solver) if cfg["ext0"] == "given" else FS.solve(*system, solver=solver)
     elif entry == "newton.solve":
         # newtonrhapson hands `solve(K, -f, x=, dof1=, dof0=, ext0=, solver=)`: b = -r
-        du = NW.solve(K, -r, fc, dof1, dof0, ext0=ext0, solver=solver)
+        if cfg.get("offsets") == "given":
+            du = NW.solve(K, -r, fc, dof1, dof0, offsets=fc.offsets, ext0=ext0, solver=solver)
+        else:
+            du = NW.solve(K, -r, fc, dof1, dof0, ext0=ext0, solver=solver)
     else:
         # felupe.tools.solve(K, f, field, dof0, dof1, offsets, ext0): "Solve linear equation system K dx = b" (f = -r)
         FS_spsolve = FS.solve.__defaults__
